@@ -463,7 +463,16 @@ impl Engine {
                 self.lower_only = false;
                 self.just_drained = false;
                 self.held.clear();
-                self.c11_ok = cfg.classes.len() == 1 && cfg.classes[0].1 == 1;
+                // C11: all allocations are base-order requests of the first configured class through its only slot.
+                // Other classes may be configured (trees start in the default class and are demoted on the way) if
+                // the policy is one of the repository's ordered ones and the requesting class is the lowest: then
+                // every tree is a match or can be demoted, so "fails only if no frame is free" applies.
+                self.c11_ok = !cfg.classes.is_empty()
+                    && cfg.classes[0].1 == 1
+                    && (cfg.classes.len() == 1
+                        || (matches!(cfg.pol, Pol::Simple | Pol::Movable)
+                            && cfg.classes.iter().all(|c| c.0 >= cfg.classes[0].0)
+                            && cfg.classes.iter().filter(|c| c.0 == cfg.classes[0].0).count() == 1));
                 self.cov.hit("new", init_name(init), "");
                 let hidden_keep = if keep { self.shadow.as_ref().map(|s| s.hidden.clone()) } else { None };
                 // C05, sequential half: what the callers held (ownership model, not the metadata) before a recovery
